@@ -25,3 +25,6 @@ mod c19;
 
 #[cfg(kani)]
 mod c16;
+
+#[cfg(kani)]
+mod c18;
